@@ -126,6 +126,9 @@ func (idp *IdP) Issue(m *LResponse, l Layout, at time.Duration) (string, error) 
 		if err != nil {
 			return "", err
 		}
+		if a.Encrypt.EnvelopeNSFromRoot && l.PStyle == 0 {
+			x = strings.Replace(x, `<saml:EncryptedAssertion xmlns:saml="`+NSAssertion+`">`, `<saml:EncryptedAssertion>`, 1)
+		}
 		encXML[a.ID] = x
 	}
 	text := RenderMessage(m, l)
